@@ -167,6 +167,38 @@ func IterValues[K cmp.Ordered, V any](site string, mp map[K]V) iter.Seq[V] {
 	}
 }
 
+// Drawer hands out the keys of a map one at a time in a controlled order
+// (lazy form of Iter for third-party iterator types).
+type Drawer[K cmp.Ordered] struct {
+	site string
+	rest []K
+}
+
+// NewDrawer collects and sorts the keys; nothing is drawn yet.
+func NewDrawer[K cmp.Ordered, V any](site string, mp map[K]V) *Drawer[K] {
+	keys := make([]K, 0, len(mp))
+	for k := range mp {
+		keys = append(keys, k)
+	}
+	slices.Sort(keys)
+	return &Drawer[K]{site: site, rest: keys}
+}
+
+// Len is the number of keys not yet drawn.
+func (d *Drawer[K]) Len() int { return len(d.rest) }
+
+// Next draws the next key.
+func (d *Drawer[K]) Next() (K, bool) {
+	var zero K
+	if len(d.rest) == 0 {
+		return zero, false
+	}
+	c := Choose(d.site, len(d.rest))
+	k := d.rest[c]
+	d.rest = append(d.rest[:c], d.rest[c+1:]...)
+	return k, true
+}
+
 // Order returns a controlled permutation of 0..n-1 (same drawing discipline as
 // Iter), for sites that are not Go maps (e.g. a node list handed out by a
 // third-party iterator).
